@@ -203,6 +203,19 @@ def roundtrip(ctx):
             out = os.path.join(td, "t.csv")
             with contextlib.redirect_stdout(io.StringIO()):
                 main(["gentrace", pf, out, "-f"])
+            first_text = open(out).read()
+            if it % 2 == 0:
+                # writing the same trace once more over the existing file (`-f`) must give the same trace
+                with contextlib.redirect_stdout(io.StringIO()):
+                    main(["gentrace", pf, out, "-f"])
+                ctx.sit("gentrace_over_an_existing_file")
+                if open(out).read() != first_text:
+                    a_, b_ = first_text.splitlines(), open(out).read().splitlines()
+                    k = next((i for i in range(min(len(a_), len(b_))) if a_[i] != b_[i]), min(len(a_), len(b_)))
+                    record(ctx, {"clause": "gentrace-rewrite-differs"}, f"`gentrace -f` over an existing file writes another trace than into a new file "
+                           f"({tps} ticks/s, seed {params['random_seed']}): {len(a_)} vs {len(b_)} lines, first difference in line {k + 1}: "
+                           f"{a_[k] if k < len(a_) else None!r} / {b_[k] if k < len(b_) else None!r}", {"params": params})
+                    return
             full = parse_args_with_defaults(params)
             gen = WorkloadGenerator(**full)
             n = int(dur * tps)
@@ -235,6 +248,84 @@ def roundtrip(ctx):
             ctx.coverage["distinct_nontrivial"] += 1
 
 
+class _Seen(Exception):
+    pass
+
+
+def cli_replay_rate(ctx):
+    """`eudoxia run PARAMS -w TRACE`: the trace is replayed at the tick rate the simulation runs at — whether the parameter file names it or leaves
+    it to the default — and with the parameters the file gives"""
+    import contextlib
+    import eudoxia.__main__ as M
+    from eudoxia.simulator import parse_args_with_defaults
+    rng = random.Random(ctx.seed + 5)
+    seen = {}
+    orig = M.run_simulator
+
+    def spy(params, workload=None):
+        seen["tps_sim"] = parse_args_with_defaults(dict(params) if isinstance(params, dict) else params)["ticks_per_second"] \
+            if isinstance(params, dict) else None
+        seen["tps_trace"] = getattr(workload, "ticks_per_second", None)
+        seen["ticks"] = [t for t in range(40) for _ in (workload.run_one_tick() if workload is not None else [])]
+        raise _Seen()              # the simulation itself is not needed here
+
+    M.run_simulator = spy
+    try:
+        for case in range(4 if ctx.quick() else 12):
+            tps = [None, 8, None, 64][case % 4]
+            arrivals = sorted(rng.randint(0, 15) / 8 for _ in range(rng.randint(1, 4)))
+            with tempfile.TemporaryDirectory() as td:
+                pf, tf = os.path.join(td, "p.toml"), os.path.join(td, "t.csv")
+                with open(pf, "w") as f:
+                    f.write("duration = 3\n" + (f"ticks_per_second = {tps}\n" if tps else ""))
+                with open(tf, "w") as f:
+                    f.write(csv_text([repr(a) for a in arrivals]))
+                seen.clear()
+                with contextlib.redirect_stdout(io.StringIO()), contextlib.redirect_stderr(io.StringIO()):
+                    try:
+                        M.main(["run", pf, "-w", tf])
+                    except (SystemExit, _Seen):
+                        pass
+            ctx.coverage["evaluations"] += 1
+            ctx.sit("cli_trace_replays")
+            eff = tps or parse_args_with_defaults({})["ticks_per_second"]
+            want = [t for t in sorted(math.ceil(F(a) * eff) for a in arrivals) if t < 40]
+            if seen.get("tps_trace") != eff or seen.get("tps_sim") != eff or seen.get("ticks") != want:
+                record(ctx, {"clause": "cli-replay-rate"},
+                       f"`eudoxia run -w` with {'ticks_per_second = ' + str(tps) if tps else 'no ticks_per_second in the parameter file (default ' + str(eff) + ')'}: "
+                       f"the simulation runs at {seen.get('tps_sim')} ticks/s, the trace is replayed at {seen.get('tps_trace')} ticks/s; arrivals {arrivals} s are "
+                       f"delivered in ticks {seen.get('ticks')}, first ticks >= arrival at {eff}/s: {want}", {"tps_in_file": tps, "arrivals": arrivals})
+                return
+            ctx.coverage["distinct_nontrivial"] += 1
+    finally:
+        M.run_simulator = orig
+
+
+def late_arrivals(ctx):
+    """pipelines whose arrival lies at or after the end of the run are simply not delivered: they are not counted as created or as arrivals"""
+    from eudoxia.simulator import run_simulator
+    rng = random.Random(ctx.seed + 6)
+    for _ in range(4 if ctx.quick() else 20):
+        tps = rng.choice([1, 2, 4, 8])
+        dur = rng.choice([2, 3, 5])
+        n = dur * tps
+        arrivals = sorted(rng.randint(0, 2 * n + 8) / tps for _ in range(rng.randint(2, 8)))
+        arrivals.append((n + rng.randint(0, 50)) / tps)          # at least one pipeline at or after the end
+        wl = make_trace([repr(a) for a in arrivals], tps)
+        params = {"duration": dur, "ticks_per_second": tps, "scheduler_algo": "naive", "num_pools": 1, "cpus_per_pool": 64, "ram_gb_per_pool": 512}
+        stats = run_simulator(params, workload=wl)
+        ctx.coverage["evaluations"] += 1
+        ctx.sit("runs_with_arrivals_after_the_end")
+        inside = sum(1 for a in arrivals if math.ceil(F(a) * tps) < n)
+        got = (stats.pipelines_created, stats.pipelines_all.arrival_count, stats.pipelines_batch.arrival_count)
+        if got != (inside, inside, inside):
+            record(ctx, {"clause": "late-arrivals-counted"},
+                   f"run of {dur} s at {tps} ticks/s over a trace with arrivals {arrivals}: {inside} of them fall inside the run, the statistics report "
+                   f"pipelines_created/all arrivals/batch arrivals = {got}", {"tps": tps, "duration": dur, "arrivals": arrivals})
+            return
+        ctx.coverage["distinct_nontrivial"] += 1
+
+
 def run(ctx):
     drv = Driver()
     try:
@@ -243,6 +334,8 @@ def run(ctx):
     finally:
         drv.close()
     roundtrip(ctx)
+    cli_replay_rate(ctx)
+    late_arrivals(ctx)
     ctx.coverage["rule"] = ("arrival strings on the tick grid (as plain decimals and as gentrace writes them), off the grid, for 13 tick rates; "
                             "exhaustive k < 3000/10000 for 10, 100, 1000 ticks/s plus sampled k up to 3e6; random multi-pipeline replays; "
                             "gentrace round trips through the CLI; compared without tolerance against the exact rational tick; "
